@@ -285,23 +285,32 @@ Qed.
 Definition Inv (B w : world) (self : nat) (R : list attr) : Prop :=
   ext B w /\ wf w /\ length (objs B) <= self /\ (forall a, In a R -> fresh_in w self (length (cells B)) a).
 
+Lemma rebind_inv B w self R a p w' :
+  Inv B w self R -> items_ok (length (objs w)) (items p) = true ->
+  set_attr (fst (alloc_cell w p)) self a (length (cells w)) = Some w' -> Inv B w' self R.
+Proof.
+  intros (He & Hw & Hs & HF) OK S2.
+  pose proof (alloc_cell_wf w p Hw OK) as W1. pose proof (alloc_cell_ext B w p He) as E1.
+  assert (W2 : wf w'). { eapply set_attr_wf; [exact W1| |exact S2]. cbn. rewrite app_length. cbn. lia. }
+  assert (E2 : ext B w') by (eapply set_attr_ext; eauto).
+  split; [|split; [|split]]; auto. intros b Hb c Hc.
+  destruct (string_dec a b) as [<-|N].
+  + rewrite (get_attr_set_same _ _ _ _ _ S2) in Hc. inversion Hc; subst. apply ext_len in He. lia.
+  + rewrite (get_attr_set_other _ _ _ _ _ self b S2) in Hc by auto. apply (HF b Hb c). exact Hc.
+Qed.
+
 Lemma run_eff_inv B w self R args e ch w' :
   Inv B w self R -> (negb (fst ch) || eff_safe R e) = true -> run_eff w self args e ch = Some w' -> Inv B w' self R.
 Proof.
-  intros (He & Hw & Hs & HF) Hq. unfold run_eff. destruct (fst ch) eqn:Fi; cbn [negb].
-  2:{ intros [= <-]. split; [|split; [|split]]; auto. }
+  intros HI Hq. pose proof HI as (He & Hw & Hs & HF). unfold run_eff. destruct (fst ch) eqn:Fi; cbn [negb].
+  2:{ intros [= <-]. auto. }
   cbn in Hq. destruct (items_ok (length (objs w)) (items (snd ch))) eqn:OK; cbn [negb]; [|discriminate].
   unfold eff_safe in Hq. destruct (etgt e) eqn:Et; try discriminate. cbn [target].
   destruct (ekd e) eqn:Ek; try discriminate.
   - (* rebind on self *)
-    cbn. intros S2.
-    pose proof (alloc_cell_wf w (snd ch) Hw OK) as W1. pose proof (alloc_cell_ext B w (snd ch) He) as E1.
-    assert (W2 : wf w'). { eapply set_attr_wf; [exact W1| |exact S2]. cbn. rewrite app_length. cbn. lia. }
-    assert (E2 : ext B w') by (eapply set_attr_ext; eauto).
-    split; [|split; [|split]]; auto. intros a Ha c Hc.
-    destruct (string_dec (eattr e) a) as [<-|N].
-    + rewrite (get_attr_set_same _ _ _ _ _ S2) in Hc. inversion Hc; subst. apply ext_len in He. lia.
-    + rewrite (get_attr_set_other _ _ _ _ _ self a S2) in Hc by auto. apply (HF a Ha c). exact Hc.
+    cbn. intros S2. eapply rebind_inv; eauto.
+  - (* guarded rebind on self *)
+    destruct (attr_unset w self (eattr e)); [|discriminate]. cbn. intros S2. eapply rebind_inv; eauto.
   - (* in place on a re-created attribute of self *)
     apply mem_str_In in Hq. destruct (get_attr_cell w self (eattr e)) as [c|] eqn:G; [|discriminate].
     intros Wc. pose proof (HF _ Hq c G) as Hge.
